@@ -1,4 +1,5 @@
 import Dyce.RollerOwn
+import Dyce.RollerAccount
 /-!
 # C12 — Rolls are complete, consistent records of how results were produced
 
@@ -23,7 +24,8 @@ rolls — through the same steps as each `roll()` method.  `mkRollDeep` is the r
 | `outcomes()` / `total()` are exactly the values of the non-tombstone outcomes | `C12_outcomes_are_live_values` |
 | derived values = the node's operation on the recorded source values (whole tuple, path by path) | `C12_values_follow_denotation` |
 | number of source rolls: one per source, `n` for `n@r`, 2 / 1 for binary / unary nodes | `C12_source_rolls_count` |
-| `roll.r`, source-roll order, accounting of live source outcomes | model by construction + identity checks on the real record in the correspondence |
+| every live outcome of every source roll is kept, a source (possibly through an implicit sum) of a derived outcome, or the source of a tombstone — every node kind, every path | `C12_live_sources_accounted`, `C12_live_sources_accounted_subst` |
+| `roll.r`, source-roll order | model by construction + identity checks on the real record in the correspondence |
 -/
 namespace Dyce
 open List
@@ -41,6 +43,13 @@ theorem C12_outcomes_are_live_values (outs : List RO) (srs : List RollRec) :
 
 theorem C12_values_follow_denotation (r : RTree) :
     mapW RollRec.values (rollW mkRollDeep r) = den r := values_rollW mkRollDeep keepsValues_deep r
+
+/-- reachable = the outcome itself or anything below it through `sources` -/
+theorem C12_live_sources_accounted (t : RTree) (hns : ∀ p e rep md src, t ≠ .subst p e rep md src)
+    (hsel : SelResolves t) : AllW Accounted (rollW mkRollDeep t) := rollW_accounted t hns hsel
+
+theorem C12_live_sources_accounted_subst (p : Int → Bool) (e : RTree) (replace : Bool) (md : Nat) (src : RTree) :
+    AllW Accounted (rollW mkRollDeep (.subst p e replace md src)) := rollW_accounted_subst p e replace md src
 
 /-- how many source rolls a node records (substitution: one per expansion, not fixed) -/
 def expectedSrcRolls : RTree → Option Nat
